@@ -76,6 +76,8 @@ int main(int argc, char **argv)
                 vh::do_wafv(tk, buf);
             else if (c == "RESIZE")
                 vh::do_resize(tk, buf);
+            else if (c == "SRUN")
+                vh::do_srun(tk, buf);
             else if (c == "WAFF")
                 vh::do_waff(tk, buf);
             else if (c == "#")
